@@ -2,6 +2,9 @@
    contains the mutex.  Every thread owns one reference and ends with a drop:
      D   lock; last = (--refs == 0); nsync_mu_unlock; if (last) free (obj)
      Du  same, released with nsync_mu_unlock_without_wakeup
+     Dm  lock; nsync_mu_wait_with_deadline (a condition that stays false, deadline D1) -- which times
+         out and returns with the lock held --; last = (--refs == 0); nsync_mu_unlock; if (last) free
+     M   (not last) lock; the same timed-out conditional wait; unlock
    before which it may use the object while still holding its reference:
      L   lock; write section; unlock          R   rlock; read section; runlock
      T   trylock [section; unlock]
@@ -21,8 +24,8 @@ static int rc_setup (const char *program) {
 		for (k = 0; k < h_nops[t]; k++) {
 			const char *o = h_op[t][k];
 			int last = (k == h_nops[t] - 1);
-			if (last) { if (strcmp (o, "D") && strcmp (o, "Du")) return -1; }
-			else if (strcmp (o, "L") && strcmp (o, "R") && strcmp (o, "T")) return -1;
+			if (last) { if (strcmp (o, "D") && strcmp (o, "Du") && strcmp (o, "Dm")) return -1; }
+			else if (strcmp (o, "L") && strcmp (o, "R") && strcmp (o, "T") && strcmp (o, "M")) return -1;
 		}
 	}
 	nthreads_ = n;
@@ -35,6 +38,7 @@ static void rc_init (void) {
 	ob->refs = nthreads_;
 	h_install_rwlock_listener ();
 }
+static int never (const void *v) { (void) v; return 0; }
 static void rc_thread (int me) {
 	int k;
 	for (k = 0; k < h_nops[me]; k++) {
@@ -43,6 +47,13 @@ static void rc_thread (int me) {
 		if (o[0] == 'D') {
 			int last;
 			nsync_mu_lock (&p->mu); h_enter (&p->mu, 1, "nsync_mu_lock");
+			if (o[1] == 'm') {
+				int r;
+				h_leave (&p->mu, 1);
+				r = nsync_mu_wait_with_deadline (&p->mu, &never, NULL, NULL, h_time (H_D1), NULL);
+				h_enter (&p->mu, 1, "return from nsync_mu_wait_with_deadline");
+				mc_assert (r == ETIMEDOUT, "conditional wait on a false condition returned %d", r);
+			}
 			p->refs = p->refs - 1;
 			last = (p->refs == 0);
 			mc_point ();
@@ -52,6 +63,13 @@ static void rc_thread (int me) {
 			h_res[me][k] = last;
 		} else if (o[0] == 'L') {
 			nsync_mu_lock (&p->mu); h_enter (&p->mu, 1, "nsync_mu_lock"); mc_point (); p->datum++; h_leave (&p->mu, 1); nsync_mu_unlock (&p->mu);
+		} else if (o[0] == 'M') {
+			int r;
+			nsync_mu_lock (&p->mu);
+			r = nsync_mu_wait_with_deadline (&p->mu, &never, NULL, NULL, h_time (H_D1), NULL);
+			mc_assert (r == ETIMEDOUT, "conditional wait on a false condition returned %d", r);
+			h_enter (&p->mu, 1, "return from nsync_mu_wait_with_deadline"); p->datum++; h_leave (&p->mu, 1);
+			nsync_mu_unlock (&p->mu);
 		} else if (o[0] == 'R') {
 			nsync_mu_rlock (&p->mu); h_enter (&p->mu, 0, "nsync_mu_rlock"); mc_point (); (void) p->datum; h_leave (&p->mu, 0); nsync_mu_runlock (&p->mu);
 		} else {
